@@ -62,3 +62,39 @@ def contract_only(group_name, unit_id):
 def theory_text(name):
     import os
     return open(os.path.join(os.path.dirname(__file__), '..', 'theory', name)).read()
+
+
+def lemmas_contract_only(text, proved_in):
+    """A theory file whose lemmas are PROVED in group `proved_in`, imported into another group with the lemma bodies dropped
+    (`external_body`): modular verification for lemmas. Specification functions keep their definitions."""
+    import importlib.util, os, re
+    spec = importlib.util.spec_from_file_location('rsparse_', os.path.join(os.path.dirname(__file__), '..', '..', 'vlib', 'rsparse.py'))
+    rs = importlib.util.module_from_spec(spec); spec.loader.exec_module(rs)
+    masked = rs.mask(text)
+    out, pos = [], 0
+    for m in re.finditer(r'(?m)^(pub (?:broadcast )?proof fn \w+)', masked):
+        # already external_body?
+        before = text[max(0, m.start() - 40):m.start()]
+        o = masked.index('{', m.end())
+        # the body is the first `{` at nesting depth 0 after the signature / requires / ensures clauses
+        depth, i = 0, m.end()
+        while True:
+            ch = masked[i]
+            if ch in '([':
+                depth += 1
+            elif ch in ')]':
+                depth -= 1
+            elif ch == '{' and depth == 0:
+                # a `{` that opens a block expression inside a clause (e.g. `ensures ({ let … })`) is at depth > 0 thanks to the paren
+                o = i
+                break
+            i += 1
+        c = rs.match_brace(masked, o)
+        if 'external_body' in before:
+            continue
+        out.append(text[pos:m.start()])
+        out.append('#[verifier::external_body] /* proved in group %s */\n' % proved_in)
+        out.append(text[m.start():o] + '{ }')
+        pos = c + 1
+    out.append(text[pos:])
+    return ''.join(out)
